@@ -1,5 +1,6 @@
 (* Proofs about Misc/UserArgs.v: the registered toggle strings, and that respelling a project-defined
-   option with the x- prefix never changes the parse result. *)
+   option with the x- prefix never changes the parse result - for add_user_argument as first written under the
+   guard that the bare double dash is not registered, for the repaired one (fixed = true) without any guard. *)
 From BFG Require Import Base.Chars Misc.Scope Misc.ScopeProofs Misc.UserArgs.
 From Coq Require Import String Lia.
 Local Open Scope N_scope.
@@ -109,12 +110,14 @@ Proof.
 Qed.
 
 (* ------------------------------------------------------------------------------------------ declarations *)
-Lemma user_names_parse names0 names : user_names UParse names0 = Some names ->
-  Forall (fun e => popt e = true) names0 /\ names = names0 ++ map twin names0.
+Lemma user_names_parse fixed names0 names : user_names fixed UParse names0 = Some names ->
+  Forall (fun e => popt e = true) names0 /\ names = names0 ++ map twin names0 /\
+  (fixed = true -> mem dd names0 = false).
 Proof.
   unfold user_names. destruct (existsb (fun i => negb (starts_with dd i)) names0) eqn:E1; [discriminate|].
+  destruct (fixed && existsb (str_eqb dd) names0) eqn:E0; [discriminate|].
   destruct (existsb (starts_with ddx) names0) eqn:E2; [discriminate|].
-  intros H. inversion H. split; [|reflexivity]. apply Forall_forall. intros e He. unfold popt.
+  intros H. inversion H. split; [|split; [reflexivity|intros ->; exact E0]]. apply Forall_forall. intros e He. unfold popt.
   assert (G1 : negb (starts_with dd e) = false).
   { destruct (negb (starts_with dd e)) eqn:E; [|reflexivity].
     assert (existsb (fun i => negb (starts_with dd i)) names0 = true) by (apply existsb_exists; eauto). congruence. }
@@ -177,11 +180,11 @@ Qed.
 
 (* the strings one declaration registers: all start with two dashes; the set, and the subset that means
    True, are closed under the plain <-> x- correspondence *)
-Lemma action_strings_closed k names0 names strings trues :
-  user_names UParse names0 = Some names -> action_strings k names = Some (strings, trues) ->
+Lemma action_strings_closed fixed k names0 names strings trues :
+  user_names fixed UParse names0 = Some names -> action_strings k names = Some (strings, trues) ->
   Forall (fun s => starts_with dd s = true) strings /\ closed strings /\ closed trues.
 Proof.
-  intros Hu Ha. destruct (user_names_parse _ _ Hu) as [HP ->].
+  intros Hu Ha. destruct (user_names_parse _ _ _ Hu) as (HP & -> & _).
   unfold action_strings in Ha.
   assert (Hstore : Some (names0 ++ map twin names0, @nil str) = Some (strings, trues) ->
                    Forall (fun s => starts_with dd s = true) strings /\ closed strings /\ closed trues).
@@ -195,6 +198,38 @@ Proof.
     + apply Forall_app. split; apply Forall_dd_twins, pre_all_popt; [apply (tprefix_true AWith)|apply (tprefix_false AWith)].
     + apply closed_app; apply closed_twins, pre_all_popt; [apply (tprefix_true AWith)|apply (tprefix_false AWith)].
     + apply closed_twins, pre_all_popt, (tprefix_true AWith).
+Qed.
+
+(* the repaired add_user_argument: no declaration registers the bare double dash.  Plain names exclude it
+   (the new test), toggle strings carry a non-empty prefix behind the two dashes, x- twins start with --x-. *)
+Lemma popt_ddstr : popt dd = true.
+Proof. reflexivity. Qed.
+
+Lemma mem_dd_pre pre l : tprefix pre -> mem dd (map (pre_of pre) l) = false.
+Proof.
+  intros Hp. induction l as [|n l IH]; [reflexivity|]. cbn [map]. rewrite mem_cons, IH, orb_false_r.
+  apply str_eqb_false_neq. unfold pre_of.
+  destruct Hp as [ -> | [ -> | [ -> | -> ] ] ]; cbn; discriminate.
+Qed.
+
+Lemma mem_dd_twins P : mem dd (map twin P) = false.
+Proof. apply mem_plain_twins, popt_ddstr. Qed.
+
+Lemma action_strings_nodd k names0 names strings trues :
+  user_names true UParse names0 = Some names -> action_strings k names = Some (strings, trues) ->
+  mem dd strings = false.
+Proof.
+  intros Hu Ha. destruct (user_names_parse _ _ _ Hu) as (HP & -> & Hn). specialize (Hn eq_refl).
+  unfold action_strings in Ha.
+  assert (Hstore : Some (names0 ++ map twin names0, @nil str) = Some (strings, trues) -> mem dd strings = false).
+  { intros H. inversion H; subst. rewrite mem_app, Hn, mem_dd_twins. reflexivity. }
+  destruct k; try (apply Hstore, Ha).
+  - rewrite !(toggle_all _ _ HP) in Ha. inversion Ha; subst.
+    rewrite !mem_app, !mem_dd_twins, (mem_dd_pre _ _ (tprefix_true AEnable)), (mem_dd_pre _ _ (tprefix_false AEnable)).
+    reflexivity.
+  - rewrite !(toggle_all _ _ HP) in Ha. inversion Ha; subst.
+    rewrite !mem_app, !mem_dd_twins, (mem_dd_pre _ _ (tprefix_true AWith)), (mem_dd_pre _ _ (tprefix_false AWith)).
+    reflexivity.
 Qed.
 
 (* ------------------------------------------------------------------------------------------ invariant *)
@@ -213,16 +248,16 @@ Proof.
   rewrite Forall_forall in H. apply H, He.
 Qed.
 
-Lemma declare_inv d p p' : declare UParse d p = inl p' -> inv p -> inv p'.
+Lemma declare_inv fixed d p p' : declare fixed UParse d p = inl p' -> inv p -> inv p'.
 Proof.
   destruct d as [names0 k]. unfold declare.
-  destruct (user_names UParse names0) as [names|] eqn:Hu; [|discriminate].
+  destruct (user_names fixed UParse names0) as [names|] eqn:Hu; [|discriminate].
   destruct names as [|first rest] eqn:En; [discriminate|]. rewrite <- En in *.
   destruct (is_nil (dest_of first)); [discriminate|].
   destruct (action_strings k names) as [[strings trues]|] eqn:Ha; [|discriminate].
   destruct (existsb _ strings); [discriminate|].
   intros H Hi. inversion H; subst p'. clear H.
-  destruct (action_strings_closed _ _ _ _ _ Hu Ha) as (Hdd & Hcs & Hct).
+  destruct (action_strings_closed _ _ _ _ _ _ Hu Ha) as (Hdd & Hcs & Hct).
   destruct Hi as [I1 I2 I3]. split; cbn [p_opts].
   - intros s a. rewrite assoc_app. destruct (assoc s (p_opts p)) as [a0|] eqn:E.
     + intros _. eapply I1, E.
@@ -236,12 +271,35 @@ Proof.
       apply (Hct s Hs).
 Qed.
 
-Lemma declare_from_inv ds : forall i p p', declare_from i UParse ds p = inl p' -> inv p -> inv p'.
+Lemma declare_from_inv fixed ds : forall i p p', declare_from fixed i UParse ds p = inl p' -> inv p -> inv p'.
 Proof.
   induction ds as [|d ds IH]; intros i p p' H Hi; cbn in H.
   - inversion H; subst. exact Hi.
-  - destruct (declare UParse d p) as [p1|e] eqn:E; [|discriminate].
+  - destruct (declare fixed UParse d p) as [p1|e] eqn:E; [|discriminate].
     eapply IH; [exact H|]. eapply declare_inv; eassumption.
+Qed.
+
+(* the invariant the repair adds: the bare double dash is never registered *)
+Lemma declare_nodd d p p' : declare true UParse d p = inl p' -> registered p dd = false -> registered p' dd = false.
+Proof.
+  destruct d as [names0 k]. unfold declare.
+  destruct (user_names true UParse names0) as [names|] eqn:Hu; [|discriminate].
+  destruct names as [|first rest] eqn:En; [discriminate|]. rewrite <- En in *.
+  destruct (is_nil (dest_of first)); [discriminate|].
+  destruct (action_strings k names) as [[strings trues]|] eqn:Ha; [|discriminate].
+  destruct (existsb _ strings); [discriminate|].
+  intros H Hr. inversion H; subst p'. clear H. unfold registered in *. cbn [p_opts].
+  rewrite assoc_app. destruct (assoc dd (p_opts p)); [discriminate|].
+  rewrite assoc_map_const, (action_strings_nodd _ _ _ _ _ Hu Ha). reflexivity.
+Qed.
+
+Lemma declare_from_nodd ds : forall i p p',
+  declare_from true i UParse ds p = inl p' -> registered p dd = false -> registered p' dd = false.
+Proof.
+  induction ds as [|d ds IH]; intros i p p' H Hr; cbn in H.
+  - inversion H; subst. exact Hr.
+  - destruct (declare true UParse d p) as [p1|e] eqn:E; [|discriminate].
+    eapply IH; [exact H|]. eapply declare_nodd; eassumption.
 Qed.
 
 (* ------------------------------------------------------------------------------------------ respelling *)
@@ -385,6 +443,46 @@ Proof.
   intros H Hn. apply parse_respell; [|exact Hn]. eapply declare_from_inv; [exact H|apply inv_empty].
 Qed.
 
+(* the repaired add_user_argument: accepted declarations never register the bare double dash ... *)
+Theorem fixed_nodd decls p : declare_all_fixed UParse decls empty_parser = inl p -> registered p dd = false.
+Proof. intros H. eapply declare_from_nodd; [exact H|reflexivity]. Qed.
+
+(* ... so the alias statement holds without a guard *)
+Theorem x_alias_repaired decls p mask argv :
+  declare_all_fixed UParse decls empty_parser = inl p -> parse p (respell p mask argv) = parse p argv.
+Proof.
+  intros H. apply parse_respell; [|exact (fixed_nodd _ _ H)]. eapply declare_from_inv; [exact H|apply inv_empty].
+Qed.
+
+(* the repair changes nothing else: a list of declarations none of which names the bare double dash is accepted
+   or rejected alike, with the same parser / the same error, by both variants *)
+Lemma user_names_fixed_same u names : mem dd names = false -> user_names true u names = user_names false u names.
+Proof. intros H. unfold user_names. unfold mem in H. rewrite H. reflexivity. Qed.
+
+Lemma declare_fixed_same u d p : mem dd (fst d) = false -> declare true u d p = declare false u d p.
+Proof.
+  destruct d as [names0 k]. cbn [fst]. intros H. unfold declare. rewrite (user_names_fixed_same _ _ H). reflexivity.
+Qed.
+
+Theorem declare_from_fixed_same u ds : forall i p, forallb (fun d => negb (mem dd (fst d))) ds = true ->
+  declare_from true i u ds p = declare_from false i u ds p.
+Proof.
+  induction ds as [|d ds IH]; intros i p H; [reflexivity|]. cbn in H. apply andb_true_iff in H. destruct H as [Hd H].
+  apply negb_true_iff in Hd. cbn [declare_from]. rewrite (declare_fixed_same _ _ _ Hd).
+  destruct (declare false u d p); [apply IH, H|reflexivity].
+Qed.
+
+(* and a declaration that does name it is a ValueError in the repaired variant (when all names start with --) *)
+Theorem declare_fixed_rejects u names k p :
+  forallb (starts_with dd) names = true -> mem dd names = true -> declare true u (names, k) p = inr EValue.
+Proof.
+  intros Hd Hm. unfold declare, user_names.
+  assert (E : existsb (fun i => negb (starts_with dd i)) names = false).
+  { clear Hm. induction names as [|n l IH]; [reflexivity|]. cbn in *. apply andb_true_iff in Hd. destruct Hd as [-> Hd].
+    cbn. apply IH, Hd. }
+  rewrite E. unfold mem in Hm. rewrite Hm. reflexivity.
+Qed.
+
 (* ------------------------------------------------------------------------------------------ toggles *)
 Lemma popt_ddn n : starts_with (STR "x-") n = false -> popt (dd ++ n) = true.
 Proof.
@@ -393,7 +491,7 @@ Proof.
 Qed.
 
 Theorem toggle_strings k n : k = AEnable \/ k = AWith -> starts_with (STR "x-") n = false ->
-  user_names UParse [dd ++ n] = Some [dd ++ n; ddx ++ n] /\
+  user_names false UParse [dd ++ n] = Some [dd ++ n; ddx ++ n] /\
   action_strings k [dd ++ n; ddx ++ n] =
     Some ([dd ++ true_prefix k ++ n; ddx ++ true_prefix k ++ n; dd ++ false_prefix k ++ n; ddx ++ false_prefix k ++ n],
           [dd ++ true_prefix k ++ n; ddx ++ true_prefix k ++ n]).
@@ -402,4 +500,16 @@ Proof.
   - unfold user_names. cbn [existsb map]. rewrite (popt_dd _ Hp), (popt_nx _ Hp). reflexivity.
   - destruct Hk as [ -> | -> ]; unfold action_strings; cbn [map]; change (ddx ++ n) with (twin (dd ++ n));
       rewrite !(toggle_plain _ _ Hp), !(toggle_twin _ _ Hp); reflexivity.
+Qed.
+
+(* the same for the repaired add_user_argument, which wants a name *)
+Theorem toggle_strings_repaired k n : k = AEnable \/ k = AWith -> starts_with (STR "x-") n = false -> n <> [] ->
+  user_names true UParse [dd ++ n] = Some [dd ++ n; ddx ++ n] /\
+  action_strings k [dd ++ n; ddx ++ n] =
+    Some ([dd ++ true_prefix k ++ n; ddx ++ true_prefix k ++ n; dd ++ false_prefix k ++ n; ddx ++ false_prefix k ++ n],
+          [dd ++ true_prefix k ++ n; ddx ++ true_prefix k ++ n]).
+Proof.
+  intros Hk Hn Hne. rewrite user_names_fixed_same; [apply toggle_strings; assumption|].
+  cbn [mem existsb]. rewrite orb_false_r. apply str_eqb_false_neq. intros E.
+  apply Hne. change dd with (dd ++ []) in E at 1. apply app_inv_head in E. symmetry. exact E.
 Qed.
